@@ -2,6 +2,7 @@ import ConjureVerif.Model.Idents
 import ConjureVerif.Lemmas.GenOrder
 import ConjureVerif.Lemmas.TypePath
 import ConjureVerif.Lemmas.Boxing
+import ConjureVerif.Lemmas.RustType
 import ConjureVerif.Gen.CodegenObjectsSrc
 import ConjureVerif.Gen.CodegenUnionsSrc
 import ConjureVerif.Gen.CodegenAliasesSrc
@@ -180,6 +181,28 @@ example : (exDefs.map (fun d => match d with
     | .union fs => fs.map (boxFlags exDefs 5 true)
     | _ => [])) = [[[true], [true]], [], [[false], [], [true]], [[true]]] := by decide
 end Recursion
+
+/-! #### doubles at every legal position -/
+section Doubles
+open ConjureVerif.RustType
+
+/-- **whatever sits below a set item or a map key is totally ordered**: for every Conjure type, the Rust type the
+generator writes (`rust_type_inner`, pinned in `gen_boxing_sources`) puts `DoubleKey` — never the unordered `f64` —
+wherever a double occurs below a set item or a map key, through optionals, lists, the values of maps and the fallbacks
+of imported types; so every `BTreeSet<T>` and `BTreeMap<K, _>` it names, at any depth, has the `Ord` it needs -/
+theorem C03_set_items_and_keys_are_ordered (t : CTy) :
+    usable (rustType false t) = true ∧ ordOk (rustType true t) = true :=
+  ⟨usable_rustType false t, ordOk_key t⟩
+
+/-- the rule as it was before D15 was repaired fails exactly this: `set<map<string, double>>` -/
+theorem C03_old_rule_witness :
+    usable (rustTypeOld false (.set (.map (.prim .string) (.prim .double)))) = false := old_rule_unusable
+
+example : render (rustType false (.set (.list (.map (.prim .string) (.optional (.prim .double)))))) =
+    "BTreeSet<Vec<BTreeMap<String,Option<DoubleKey>>>>" := by decide +kernel
+example : render (rustType false (.map (.prim .double) (.list (.prim .double)))) = "BTreeMap<DoubleKey,Vec<f64>>" := by
+  decide +kernel
+end Doubles
 
 /-! #### non-vacuity -/
 example : identName Gen.Keywords.escaped "type" = "type_" ∧ identName Gen.Keywords.escaped "field_name" = "field_name" := by
